@@ -406,3 +406,75 @@ Proof.
   rewrite E in E'. injection E' as <-. unfold decode in D. injection D as _ _ D1 _ _ Da _.
   cbn in D1, Da. split; assumption.
 Qed.
+
+(* ---- arrays: ARR, IX1, IX2 ---- *)
+Lemma step_arr v mid m r rr instr k0 a0 k1 a1 k2 a2 :
+  at_ip v r mid instr ->
+  decode instr = {| f_op := ARR; f_k0 := k0; f_k1 := k1; f_k2 := k2; f_a0 := a0; f_a1 := a1; f_a2 := a2 |} ->
+  step (St v mid m) r rr =
+  lift (p0 <~ fetch (St v mid m) mid k0 a0 ;; let (v0, x0) := p0 in
+        p1 <~ fetch v0 mid k1 a1 ;; let (v1, x1) := p1 in
+        match x1 with
+        | VArr l => v2 <~ vPush v1 mid (VArr (l ++ [x0])) ;; Good (next v2 r)
+        | _ => Abort "cannot convert value to array"
+        end).
+Proof.
+  intros [Hi Hc] Hd. unfold decode in Hd. injection Hd as Eop E0 E1 E2 Ea0 Ea1 Ea2.
+  unfold step. change (v_cs (St v mid m)) with (v_cs v). rewrite Hi. cbn [req obind].
+  rewrite cur_mid_St, Hc. cbn [obind]. rewrite Eop, E0, E1, Ea0, Ea1. reflexivity.
+Qed.
+
+Lemma step_ix1 v mid m r rr instr k0 a0 k1 a1 k2 a2 :
+  at_ip v r mid instr ->
+  decode instr = {| f_op := IX1; f_k0 := k0; f_k1 := k1; f_k2 := k2; f_a0 := a0; f_a1 := a1; f_a2 := a2 |} ->
+  step (St v mid m) r rr =
+  lift (p0 <~ fetch (St v mid m) mid k0 a0 ;; let (v0, x0) := p0 in
+        p1 <~ fetch v0 mid k1 a1 ;; let (v1, x1) := p1 in
+        match Index1 x1 x0 with
+        | Fail e => Good (SErr v1 (r_ctx r) (r_ip r) e [x1; x0])
+        | Ok y => v2 <~ vPush v1 mid y ;; Good (next v2 r)
+        end).
+Proof.
+  intros [Hi Hc] Hd. unfold decode in Hd. injection Hd as Eop E0 E1 E2 Ea0 Ea1 Ea2.
+  unfold step. change (v_cs (St v mid m)) with (v_cs v). rewrite Hi. cbn [req obind].
+  rewrite cur_mid_St, Hc. cbn [obind]. rewrite Eop, E0, E1, Ea0, Ea1. reflexivity.
+Qed.
+
+Lemma step_ix2 v mid m r rr instr k0 a0 k1 a1 k2 a2 :
+  at_ip v r mid instr ->
+  decode instr = {| f_op := IX2; f_k0 := k0; f_k1 := k1; f_k2 := k2; f_a0 := a0; f_a1 := a1; f_a2 := a2 |} ->
+  step (St v mid m) r rr =
+  lift (p0 <~ fetch (St v mid m) mid k0 a0 ;; let (v0, x0) := p0 in
+        p1 <~ fetch v0 mid k1 a1 ;; let (v1, x1) := p1 in
+        p2 <~ fetch v1 mid k2 a2 ;; let (v2, x2) := p2 in
+        match Index2 x2 x1 x0 with
+        | Fail e => Good (SErr v2 (r_ctx r) (r_ip r) e [x2; x1; x0])
+        | Ok y => v3 <~ vPush v2 mid y ;; Good (next v3 r)
+        end).
+Proof.
+  intros [Hi Hc] Hd. unfold decode in Hd. injection Hd as Eop E0 E1 E2 Ea0 Ea1 Ea2.
+  unfold step. change (v_cs (St v mid m)) with (v_cs v). rewrite Hi. cbn [req obind].
+  rewrite cur_mid_St, Hc. cbn [obind]. rewrite Eop, E0, E1, E2, Ea0, Ea1, Ea2. reflexivity.
+Qed.
+
+Lemma decode_op012 op k0 a0 k1 a1 k2 a2 w0 w1 w2 :
+  0 <= op < 128 -> 0 <= k0 < 8 -> 0 <= k1 < 8 -> 0 <= k2 < 8 ->
+  EncodeSrc 0 k0 a0 = Some w0 -> EncodeSrc 1 k1 a1 = Some w1 -> EncodeSrc 2 k2 a2 = Some w2 ->
+  decode (Z.lor (Z.lor (Z.lor (New op) w2) w1) w0) =
+  {| f_op := op; f_k0 := k0; f_k1 := k1; f_k2 := k2; f_a0 := a0; f_a1 := a1; f_a2 := a2 |}.
+Proof.
+  intros Hop H0 H1 H2 E0 E1 E2.
+  pose proof (instr_roundtrip op k0 a0 k1 a1 k2 a2 w0 w1 w2 Hop H0 H1 H2 E0 E1 E2) as [_ D].
+  cbv zeta in D. rewrite <- D. f_equal.
+  apply Z.bits_inj'. intros n Hn. rewrite !Z.lor_spec.
+  destruct (Z.testbit (New op) n), (Z.testbit w0 n), (Z.testbit w1 n), (Z.testbit w2 n); reflexivity.
+Qed.
+
+Lemma enc_src2 k a w : 0 <= k < 8 -> EncodeSrc 2 k a = Some w -> Src2 w = k /\ Src2Addr w = a.
+Proof.
+  intros Hk E.
+  assert (R : -32768 <= a < 32768) by (apply (proj1 (encode_accepts_iff 2 k a ltac:(lia))); eauto).
+  destruct (src_roundtrip 2 k a ltac:(lia) Hk R) as [w' [E' [_ D]]].
+  rewrite E in E'. injection E' as <-. unfold decode in D. injection D as _ _ _ D2 _ _ Da.
+  cbn in D2, Da. split; assumption.
+Qed.
